@@ -318,6 +318,38 @@ def check_ts_history(variant, ts, vals, tend, reinit):
         # an earlier timestamp is rejected and changes nothing - neither what
         # is reported now nor what is reported after further observations
         before = ts_getters(t)
+        # a refused closing (end time before the last timestamp) closes
+        # nothing: the tally goes on exactly like a twin that never saw it
+        if len(ts) <= 3:
+            c = copy.deepcopy(t)
+            twin = copy.deepcopy(t)
+            try:
+                if variant == "duration":
+                    from pydsol.core.units import Duration
+                    c.end_observations(Duration(float(ts[-1] - 0.5), "s"))
+                else:
+                    c.end_observations(ts[-1] - 0.5)
+                bad.append(("closing-before-the-last-timestamp-accepted", ts))
+            except ValueError:
+                pass
+            except Exception as ex:  # noqa
+                bad.append(("closing-before-the-last-timestamp-wrong-"
+                            "exception", ts, type(ex).__name__))
+            try:
+                for obj in (c, twin):
+                    feed_t(obj, variant, ts[-1] + 2, 5)
+                    if variant == "duration":
+                        from pydsol.core.units import Duration
+                        obj.end_observations(Duration(float(ts[-1] + 3), "s"))
+                    else:
+                        obj.end_observations(ts[-1] + 3)
+                if not all(same(x, y) for x, y in zip(ts_getters(twin),
+                                                      ts_getters(c))):
+                    bad.append(("refused-closing-changed-later-results", ts,
+                                ts_getters(c), ts_getters(twin)))
+            except Exception as ex:  # noqa
+                bad.append(("continuation-after-refused-closing-raised", ts,
+                            type(ex).__name__))
         for early in (ts[-1] - 0.5, ts[0] - 1, math.nan):
             c = copy.deepcopy(t)
             twin = copy.deepcopy(t) if (early == ts[-1] - 0.5
